@@ -582,16 +582,23 @@ def _extract_named_added_loss_terms(module, memo=None, prefix=""):
 
 
 def _extract_named_priors(
-    module: nn.Module, prefix: str = ""
+    module: nn.Module, prefix: str = "", memo: Optional[MutableSet] = None
 ) -> Iterator[tuple[str, nn.Module, Prior, Closure, SettingClosure | None]]:
+    # A module that is reachable by two paths (a likelihood held by the objective and by its model, one kernel object used twice
+    # in a composite kernel) still carries each of its priors once
+    if memo is None:
+        memo = set()
     if isinstance(module, Module):
         for name, (prior, closure, inv_closure) in module._priors.items():
-            if prior is not None:
+            if prior is not None and (id(module), name) not in memo:
+                memo.add((id(module), name))
                 full_name = ("." if prefix else "").join([prefix, name])
                 yield full_name, module, prior, closure, inv_closure
     for mname, module_ in module.named_children():
         submodule_prefix = prefix + ("." if prefix else "") + mname
-        for name, parent_module, prior, closure, inv_closure in _extract_named_priors(module_, prefix=submodule_prefix):
+        for name, parent_module, prior, closure, inv_closure in _extract_named_priors(
+            module_, prefix=submodule_prefix, memo=memo
+        ):
             yield name, parent_module, prior, closure, inv_closure
 
 
